@@ -100,6 +100,8 @@ fn context_roundtrip_for(log_len: u32) {
     let (q, b, g, ff, rdeg): (u8, u8, u8, u8, u8) = (kani::any(), kani::any(), kani::any(), kani::any(), kani::any());
     kani::assume(q > 0 && b.is_power_of_two() && b >= 2 && b <= 128 && g <= 32);
     kani::assume(ff.is_power_of_two() && ff >= 2 && ff <= 16 && (rdeg as usize + 1).is_power_of_two());
+    // Context::new's own precondition: the LDE domain fits in 32 bits
+    kani::assume((1usize << log_len) * (b as usize) <= u32::MAX as usize);
     let ti = TraceInfo::new_multi_segment(main, aux, rands, 1usize << log_len, alloc::vec::Vec::new());
     let opts = ProofOptions::new(q as usize, b as usize, g as u32, crate::FieldExtension::Quadratic, ff as usize, rdeg as usize);
     let c = Context::new::<math::fields::f64::BaseElement>(ti, opts);
